@@ -63,6 +63,8 @@ class Chunk:
                 self.data = [int(x) for x in chunk_data[6:]]
             elif self.data_type == Attribute.Type.Bool:
                 self.data = [bool(int(x)) for x in chunk_data[6:]]
+            elif self.data_type == Attribute.Type.Complex:
+                self.data = [complex(x) for x in chunk_data[6:]]
             else:
                 # Attribute type cannot be exported
                 self.data = chunk_data[6:]
@@ -134,7 +136,7 @@ def import_geogram_ascii(path):
             # cell sizrs are provided : the mesh is not tetrahedral
             for i in range(container_sizes[Chunk.Container.CELLS]-1):
                 n_corner_in_cell.append(chk.data[i+1] - chk.data[i])
-            n_corner_in_facet.append(container_sizes[Chunk.Container.CELL_CORNERS] - chk.data[-1])
+            n_corner_in_cell.append(container_sizes[Chunk.Container.CELL_CORNERS] - chk.data[-1])
             cell_ptr = chk.data
 
     if len(n_corner_in_facet)==0 and container_sizes[Chunk.Container.FACES]>0:
@@ -202,6 +204,8 @@ def import_geogram_ascii(path):
             adj_cell._expand(container_sizes[Chunk.Container.CELL_FACETS])
             import_attribute(chk, adj_cell)
 
+        elif chk.name in ("\"GEO::Mesh::facets::facet_ptr\"", "\"GEO::Mesh::cells::cell_ptr\""):
+            continue # element sizes: already used to build faces / cells
         else: # user defined attribute
             container = {
                 Chunk.Container.VERTICES : outmesh.vertices,
@@ -265,6 +269,13 @@ def export_geogram_ascii(mesh : RawMeshData, path):
         if hasattr(mesh, "faces") and not mesh.faces.empty():
             n_face = len(mesh.faces)
             f.write(f"[ATTS]\n\"GEO::Mesh::facets\"\n{n_face}\n")
+            if any(len(face)!=3 for face in mesh.faces):
+                # not a triangle mesh: the index of the first corner of each face is needed to read the faces back
+                f.write("[ATTR]\n\"GEO::Mesh::facets\"\n\"GEO::Mesh::facets::facet_ptr\"\n\"index_t\"\n4\n1\n")
+                ptr = 0
+                for face in mesh.faces:
+                    f.write(f"{ptr}\n")
+                    ptr += len(face)
             for attr_key in mesh.faces.attributes:
                 attr = mesh.faces.get_attribute(attr_key)
                 export_attribute(f, n_face, "GEO::Mesh::facets", attr, attr_key)
@@ -291,6 +302,13 @@ def export_geogram_ascii(mesh : RawMeshData, path):
         if hasattr(mesh, "cells") and not mesh.cells.empty():
             n_cells = len(mesh.cells)
             f.write("[ATTS]\n\"GEO::Mesh::cells\"\n{}\n".format(n_cells))
+            if any(len(cell)!=4 for cell in mesh.cells):
+                # not a tetrahedral mesh: the index of the first corner of each cell is needed to read the cells back
+                f.write("[ATTR]\n\"GEO::Mesh::cells\"\n\"GEO::Mesh::cells::cell_ptr\"\n\"index_t\"\n4\n1\n")
+                ptr = 0
+                for cell in mesh.cells:
+                    f.write(f"{ptr}\n")
+                    ptr += len(cell)
             for attr_key in mesh.cells.attributes:
                 attr = mesh.cells.get_attribute(attr_key)
                 export_attribute(f, n_cells, "GEO::Mesh::cells", attr, attr_key)
